@@ -295,6 +295,236 @@ theorem chain_counts (rs : List Rune) :
 
 end SegChain
 
+/-! ## Chains of any loop that is "first cut of a run" up to a decoding of the carried state
+
+`FirstGraphemeCluster` and `Step` carry more in their `int` state than the automaton state (the
+class of the next code point, four packed sub-states). `dec` decodes the carried `Nat` into the
+abstract state `σ` of a transition function `tr`; if every call is "first boundary of the run that
+starts after the first code point", the returned state decodes to the run's state at the cut, and
+the call's extra result is a function `hv` of the verdict at the cut, then the whole chain is the
+cuts of one run. -/
+section GenChain
+variable {σ V X E : Type} (tr : Option σ → Nat → List Nat → σ × V) (isB : V → Bool)
+variable (f : List Rune → Option Nat → Nat × X × Nat) (dec : Nat → σ) (ext : X → E) (hv : Option V → E)
+
+/-- index of the first boundary verdict and the run's (state, verdict) there (`none`: end of text) -/
+def firstCutG : List (σ × V) → Nat × Option (σ × V)
+  | [] => (0, none)
+  | t :: rest => if isB t.2 then (0, some t) else ((firstCutG rest).1 + 1, (firstCutG rest).2)
+
+/-- the abstract state with which a call's loop starts -/
+def startG (st : Option Nat) (r : Nat) (rest : List Nat) : σ :=
+  match st with
+  | none => (tr none r rest).1
+  | some s => dec s
+
+/-- what it means for `f` to be a "first cut" loop over `tr` with carried-state decoding `dec` and
+extra result `ext = hv (verdict at the cut)` -/
+def IsFirstCut : Prop :=
+  ∀ (r : Rune) (rest : List Rune) (st : Option Nat),
+    (f (r :: rest) st).1 = (firstCutG isB (runV tr (some (startG tr dec st r.1 (runeVals rest))) (runeVals rest))).1 + 1 ∧
+    (∀ t, (firstCutG isB (runV tr (some (startG tr dec st r.1 (runeVals rest))) (runeVals rest))).2 = some t →
+      dec (f (r :: rest) st).2.2 = t.1) ∧
+    ext (f (r :: rest) st).2.1 =
+      hv ((firstCutG isB (runV tr (some (startG tr dec st r.1 (runeVals rest))) (runeVals rest))).2.map (·.2))
+
+theorem firstCutG_le (l : List (σ × V)) : (firstCutG isB l).1 ≤ l.length := by
+  induction l with
+  | nil => simp [firstCutG]
+  | cons t rest ih =>
+    simp only [firstCutG]
+    split
+    · simp
+    · simp; omega
+
+theorem firstCutG_none (l : List (σ × V)) (h : (firstCutG isB l).2 = none) : (firstCutG isB l).1 = l.length := by
+  induction l with
+  | nil => rfl
+  | cons t rest ih =>
+    simp only [firstCutG] at h ⊢
+    split at h
+    · cases h
+    · rename_i hb
+      simp only [hb, Bool.false_eq_true, ↓reduceIte, List.length_cons]
+      rw [ih h]
+
+theorem firstCutG_lt (l : List (σ × V)) (t : σ × V) (h : (firstCutG isB l).2 = some t) :
+    (firstCutG isB l).1 < l.length := by
+  induction l with
+  | nil => simp [firstCutG] at h
+  | cons t0 l ih =>
+    simp only [firstCutG] at h ⊢
+    by_cases hb : isB t0.2 = true
+    · simp [hb]
+    · simp only [hb, Bool.false_eq_true, ↓reduceIte] at h
+      simp only [hb, Bool.false_eq_true, ↓reduceIte, List.length_cons]
+      have := ih h
+      omega
+
+/-- `cutsV` of a verdict list, unfolded at its first boundary -/
+theorem cutsV_firstCutG (vs : List (σ × V)) : ∀ acc : Nat,
+    cutsV isB (vs.map (·.2)) acc =
+      match (firstCutG isB vs).2 with
+      | none => [(acc + vs.length, none)]
+      | some t => (acc + (firstCutG isB vs).1, some t.2) :: cutsV isB ((vs.drop ((firstCutG isB vs).1 + 1)).map (·.2)) 1 := by
+  induction vs with
+  | nil => intro acc; rfl
+  | cons t rest ih =>
+    intro acc
+    simp only [List.map_cons, cutsV, firstCutG]
+    by_cases hb : isB t.2 = true
+    · simp only [hb, ↓reduceIte, Nat.add_zero, Nat.zero_add, List.drop_succ_cons, List.drop_zero]
+    · simp only [hb, Bool.false_eq_true, ↓reduceIte]
+      rw [ih (acc + 1)]
+      cases (firstCutG isB rest).2 with
+      | none => simp only [List.length_cons]; congr 2; omega
+      | some s' =>
+        simp only [List.drop_succ_cons]
+        congr 2; omega
+
+/-- after the first boundary of a run, the run continues from the state reached there -/
+theorem runV_after_cut : ∀ (l : List Nat) (st : Option σ) (t : σ × V),
+    (firstCutG isB (runV tr st l)).2 = some t →
+      (runV tr st l).drop ((firstCutG isB (runV tr st l)).1 + 1) =
+        runV tr (some t.1) (l.drop ((firstCutG isB (runV tr st l)).1 + 1)) := by
+  intro l
+  induction l with
+  | nil => intro st t h; cases h
+  | cons x l ih =>
+    intro st t h
+    simp only [runV, firstCutG] at h ⊢
+    by_cases hb : isB (tr st x l).2 = true
+    · simp only [hb, ↓reduceIte, Option.some.injEq] at h
+      subst h
+      simp only [hb, ↓reduceIte, Nat.zero_add, List.drop_succ_cons, List.drop_zero]
+    · simp only [hb, Bool.false_eq_true, ↓reduceIte] at h
+      simp only [hb, Bool.false_eq_true, ↓reduceIte, List.drop_succ_cons]
+      exact ih _ t h
+
+variable (hf : IsFirstCut tr isB f dec ext hv)
+include hf
+
+theorem gen_pos (rs : List Rune) (st : Option Nat) (h : rs ≠ []) : 1 ≤ (f rs st).1 := by
+  cases rs with
+  | nil => exact absurd rfl h
+  | cons r rest => rw [(hf r rest st).1]; omega
+
+theorem gen_le (rs : List Rune) (st : Option Nat) : (f rs st).1 ≤ rs.length ∨ rs = [] := by
+  cases rs with
+  | nil => exact Or.inr rfl
+  | cons r rest =>
+    left
+    rw [(hf r rest st).1]
+    have := firstCutG_le isB (runV tr (some (startG tr dec st r.1 (runeVals rest))) (runeVals rest))
+    rw [runV_length] at this
+    have hl : (runeVals rest).length = rest.length := by simp [runeVals]
+    simp only [List.length_cons]; omega
+
+/-- the body shared by the two chain theorems: one call followed by the rest of the chain -/
+theorem gen_step (n : Nat)
+    (ih : ∀ (rest : List Rune), rest.length ≤ n → ∀ (r : Rune) (c : Nat),
+      (chain f (r :: rest) (some c)).map (fun x => (x.1, ext x.2.1)) =
+        (cutsV isB ((runV tr (some (dec c)) (runeVals rest)).map (·.2)) 1).map (fun p => (p.1, hv p.2)))
+    (rest : List Rune) (hn : rest.length ≤ n + 1) (r : Rune) (st : Option Nat) :
+    (chain f (r :: rest) st).map (fun x => (x.1, ext x.2.1)) =
+      (cutsV isB ((runV tr (some (startG tr dec st r.1 (runeVals rest))) (runeVals rest)).map (·.2)) 1).map
+        (fun p => (p.1, hv p.2)) := by
+  rw [chain_cons _ (gen_pos tr isB f dec ext hv hf)]
+  obtain ⟨h1, h2, h3⟩ := hf r rest st
+  rw [cutsV_firstCutG]
+  have hlen : (runeVals rest).length = rest.length := by simp [runeVals]
+  generalize hσ : startG tr dec st r.1 (runeVals rest) = σ0 at h1 h2 h3 ⊢
+  cases hcut : (firstCutG isB (runV tr (some σ0) (runeVals rest))).2 with
+  | none =>
+    have hk := firstCutG_none isB _ hcut
+    rw [runV_length, hlen] at hk
+    rw [hcut] at h3
+    simp only [List.map_cons, h1, hk, h3, runV_length, hlen, Option.map_none, List.map_nil]
+    have : (r :: rest).drop (rest.length + 1) = [] := by simp
+    rw [this, chain_nil]
+    simp [Nat.add_comm]
+  | some t =>
+    have hdec := h2 t hcut
+    rw [hcut] at h3
+    have hlt := firstCutG_lt isB _ t hcut
+    rw [runV_length, hlen] at hlt
+    simp only [List.map_cons, h1, h3, Option.map_some]
+    rw [runV_after_cut tr isB _ _ t hcut]
+    generalize hkk : (firstCutG isB (runV tr (some σ0) (runeVals rest))).1 = k at hlt ⊢
+    have hdrop : (r :: rest).drop (k + 1) = rest.drop k := by simp
+    rw [hdrop]
+    have hne : rest.drop k ≠ [] := by
+      intro hend
+      have := congrArg List.length hend
+      simp only [List.length_drop, List.length_nil] at this
+      omega
+    obtain ⟨r', rest', hr'⟩ := List.exists_cons_of_ne_nil hne
+    rw [hr']
+    have hlen' : rest'.length ≤ n := by
+      have := congrArg List.length hr'
+      simp only [List.length_drop, List.length_cons] at this
+      omega
+    rw [ih rest' hlen' r' _, hdec]
+    have hvals : (runeVals rest).drop (k + 1) = runeVals rest' := by
+      have : runeVals (rest.drop k) = runeVals (r' :: rest') := by rw [hr']
+      simp only [runeVals, List.map_drop, List.map_cons] at this ⊢
+      rw [List.drop_add_one_eq_tail_drop, this]; rfl
+    rw [hvals]
+    simp [Nat.add_comm]
+
+/-- segments of the chain from a carried state `c` = cuts of the run from `dec c` -/
+theorem gen_chain_some : ∀ (n : Nat) (rest : List Rune), rest.length ≤ n → ∀ (r : Rune) (c : Nat),
+    (chain f (r :: rest) (some c)).map (fun x => (x.1, ext x.2.1)) =
+      (cutsV isB ((runV tr (some (dec c)) (runeVals rest)).map (·.2)) 1).map (fun p => (p.1, hv p.2)) := by
+  intro n
+  induction n with
+  | zero =>
+    intro rest hn r c
+    have : rest = [] := List.eq_nil_of_length_eq_zero (by omega)
+    subst this
+    rw [chain_cons _ (gen_pos tr isB f dec ext hv hf)]
+    obtain ⟨h1, _, h3⟩ := hf r [] (some c)
+    simp only [runeVals, List.map_nil, runV, firstCutG, Nat.zero_add, Option.map_none] at h1 h3
+    simp only [h1, h3, List.drop_succ_cons, List.drop_nil, chain_nil, List.map_cons, List.map_nil, runeVals, runV, cutsV]
+  | succ n ih =>
+    intro rest hn r c
+    exact gen_step tr isB f dec ext hv hf n ih rest hn r (some c)
+
+/-- **the carried state is an accelerator** (general form): the segments of the chain from `-1`
+(length and extra result) = the cuts of the single left-to-right run from `-1` -/
+theorem gen_chainV (rs : List Rune) :
+    (chain f rs none).map (fun x => (x.1, ext x.2.1)) =
+      match rs with
+      | [] => []
+      | _ :: _ => (cutsV isB ((runV tr none (runeVals rs)).tail.map (·.2)) 1).map (fun p => (p.1, hv p.2)) := by
+  cases rs with
+  | nil => rfl
+  | cons r rest =>
+    have := gen_step tr isB f dec ext hv hf rest.length
+      (fun rest' h' r' c => gen_chain_some tr isB f dec ext hv hf rest.length rest' h' r' c)
+      rest (Nat.le_succ _) r none
+    simp only [startG] at this
+    simp only [runeVals, List.map_cons, runV, List.tail_cons]
+    simp only [runeVals] at this
+    exact this
+
+theorem gen_chain (rs : List Rune) :
+    (chain f rs none).map (·.1) =
+      match rs with
+      | [] => []
+      | _ :: _ => cuts isB ((runV tr none (runeVals rs)).tail.map (·.2)) 1 := by
+  have h := congrArg (List.map (·.1)) (gen_chainV tr isB f dec ext hv hf rs)
+  simp only [List.map_map] at h
+  cases rs with
+  | nil => rfl
+  | cons r rest =>
+    simp only [cuts]
+    refine Eq.trans ?_ (Eq.trans h ?_)
+    · rfl
+    · simp only [List.map_map]; rfl
+
+end GenChain
+
 /-- reading the verdicts through a map `g` changes neither the states nor the run's shape -/
 theorem runV_map {σ V W : Type} (tr : Option σ → Nat → List Nat → σ × V) (g : V → W) (st : Option σ) (l : List Nat) :
     runV (fun st r rest => ((tr st r rest).1, g (tr st r rest).2)) st l = (runV tr st l).map (fun t => (t.1, g t.2)) := by
